@@ -19,6 +19,7 @@ import (
 	"golang.org/x/tools/go/ssa"
 	"golang.org/x/tools/go/ssa/ssautil"
 	"symgo/interp"
+	"symgo/smt"
 )
 
 const modPath = "github.com/go-openapi/runtime"
@@ -202,7 +203,11 @@ func cmdCheck(args []string) int {
 	only := fs.String("only", "", "run only this harness function")
 	noReplay := fs.Bool("noreplay", false, "skip native replays (debug)")
 	solver := fs.String("solver", "z3 -in", "solver command")
+	slow := fs.Float64("slowq", 0, "log solver queries slower than this many seconds")
 	fs.Parse(args)
+	if *slow > 0 {
+		smt.SlowQuery = time.Duration(*slow * float64(time.Second))
+	}
 	start := time.Now()
 	seed := 0
 	if s := os.Getenv("VERIF_SEED"); s != "" {
